@@ -2,7 +2,7 @@
    what the implementation produced. Strings are interned by the driver (0 = empty string). The meaning of regex atoms is
    given as a finite table measured by the harness (pattern id, value id) - the model never interprets patterns. *)
 From Coq Require Import NArith List Bool.
-From OG Require Import C10.Model C10.Regex C10.ListingCond.
+From OG Require Import C10.Model C10.Regex C10.RegexNew C10.ListingCond.
 Import ListNotations.
 Open Scope N_scope.
 
@@ -76,8 +76,11 @@ Fixpoint check_ops (cl cn : bool) (tab : list (N * N)) (k : nat) (i : index) (os
    (pattern number, string id (0 = the absent tag), Go regexp's answer, the index's answer). Pattern reading 2n is the
    index's translation of pattern n (today's or the repaired one, switch cr), reading 2n+1 is the language (Go regexp,
    as the pruning path evaluates a regex atom). *)
+(* cr = true: the translation before /repo commit f7a71a4 (Regex.current_match); cr = false: the translation since then
+   (RegexNew.new_match: or-value lookups for ^X$, literal prefix for ^lit.., scan with the compiled expression on the unescaped
+   value, match-everything and empty-match handling), proved equal to unanchored matching *)
 Definition index_match (cr : bool) (r : re) (v : option (list N)) : bool :=
-  if cr then current_match r v else repaired_match r v.
+  if cr then current_match r v else new_match r v.
 (* a pattern of a case: number, its tree, and the tree of the filter's value text after Init (what doPrune compiles; today
    the literal text re-read as an expression when the pattern was reduced to a literal, else the pattern itself) *)
 Definition cpat := (N * re * re)%type.
@@ -117,7 +120,8 @@ Definition mismatches (cl cn cr : bool) := mismatches_from cl cn cr 0.
    stages of the real translation and the rows measured on the real index *)
 Definition mrow := (option (list N) * bool * bool)%type.     (* value (None = absent tag), Go regexp, index *)
 Record mpat := mkMP { mp_src : list N; mp_vtext : list N; mp_ast : re; mp_final : re; mp_prefix : list N; mp_has_sfx : bool;
-                      mp_sfx : re; mp_orv : list (list N); mp_rows : list mrow }.
+                      mp_sfx : re; mp_orv : list (list N); mp_aov : list (list N); mp_alp : list N; mp_all : bool;
+                      mp_rows : list mrow }.
 Definition lsubset (a b : list (list N)) : bool := forallb (fun x => existsb (list_eqb x) b) a.
 (* stage codes (diagnostics): 20 simplify loop, 21 literal prefix / presence of a rest, 22 the rest's tree, 23 or-values,
    24 the filter's value text after Init (cache_literal).
@@ -133,6 +137,15 @@ Definition check_stages (p : mpat) : list N :=
               (if negb (mp_has_sfx p) || (lsubset (or_values x) (mp_orv p) && lsubset (mp_orv p) (or_values x)) then [] else [23])
   | None => []
   end.
+(* stages of today's translation: 25 anchoredOrValues, 26 anchoredLiteralPrefix, 27 regexMatchesEverything *)
+Definition check_stages_new (p : mpat) : list N :=
+  let ov := anchored_or_values (mp_ast p) in
+  (if lsubset ov (mp_aov p) && lsubset (mp_aov p) ov then [] else [25]) ++
+  (if list_eqb (match ov with [] => anchored_literal_prefix (mp_ast p) | _ => mp_alp p end) (mp_alp p) then [] else [26]) ++
+  (if Bool.eqb (matches_everything (mp_ast p)) (mp_all p) then [] else [27]).
+(* the constants the model copies from the source: maxOrValues and the escaped bytes *)
+Definition check_consts (mo e0 e1 e2 : N) : bool :=
+  (N.of_nat max_or_values =? mo) && list_eqb (esc [e0; e1; e2]) [0; 48; 0; 49; 0; 50] && list_eqb (unesc [0; 48; 0; 49; 0; 50]) [e0; e1; e2].
 Fixpoint check_mrows (cr : bool) (t : re) (k : nat) (rows : list mrow) : list (nat * N) :=
   match rows with
   | [] => []
@@ -143,7 +156,7 @@ Fixpoint check_mrows (cr : bool) (t : re) (k : nat) (rows : list mrow) : list (n
 Fixpoint check_matrix (cr : bool) (k : nat) (ps : list mpat) : list (nat * nat * N) :=
   match ps with
   | [] => []
-  | p :: r => map (fun c => (k, 0%nat, c)) (check_stages p) ++
+  | p :: r => map (fun c => (k, 0%nat, c)) (if cr then check_stages p else check_stages_new p) ++
               map (fun x => (k, S (fst x), snd x)) (check_mrows cr (mp_ast p) 0 (mp_rows p)) ++ check_matrix cr (S k) r
   end.
 (* per pattern: shape class (0 literal, 1 match-all, 2 ^literal, 3 other, 4 ^(lit|..|lit)$) and whether it has position assertions *)
